@@ -340,8 +340,13 @@ fn parse_expr(t: &mut std::collections::VecDeque<String>) -> E {
 }
 
 pub fn run(ctx: &Ctx, focus: &str) -> Result<()> {
+	let mut col = Collector::new(&ctx.out)?;
+	run_into(ctx, focus, &mut col)?;
+	col.finish()
+}
+
+pub fn run_into(ctx: &Ctx, focus: &str, col: &mut Collector) -> Result<()> {
 	let rt = tokio::runtime::Builder::new_multi_thread().worker_threads(4).enable_all().build()?;
-	let mut out = Out::create(&ctx.out, "cases.txt")?;
 	let mut specv: Vec<SpecV> = Vec::new();
 	let mut stats = BTreeMap::new();
 	let mut rng = Rng::new(ctx.seed ^ focus.bytes().fold(0u64, |a, b| a * 131 + b as u64));
@@ -363,26 +368,19 @@ pub fn run(ctx: &Ctx, focus: &str) -> Result<()> {
 		};
 		let spec = spec_map(&e)?;
 		let qs = gen_queries(&mut rng, &spec, nq);
-		run_expr(&rt, &e, &qs, &mut out, &mut specv, &mut stats)?;
+		run_expr(&rt, &e, &qs, &mut col.out, &mut specv, &mut stats)?;
 		*stats.entry("expressions".into()).or_insert(0) += 1;
 		*stats.entry(format!("spec_tiles_{}", match spec.len() { 0 => "0", 1..=9 => "1-9", 10..=99 => "10-99", _ => "100+" })).or_insert(0) += 1;
 	}
 	if focus == "c09" || focus == "pipe" {
 		build_args(&rt, &mut rng, ctx.thorough, &mut specv, &mut stats);
 	}
-	let lines = out.lines;
-	out.finish();
-	let mut v = Out::create(&ctx.out, "spec_violations.jsonl")?;
 	for x in &specv {
-		v.line(&format!("{{\"kind\":{},\"expr\":{},\"query\":{},\"replay\":{},\"detail\":{}}}", jstr(&x.kind), jstr(&x.expr), jstr(&x.query),
-			jstr(&format!("pipe {} ;; {}", x.expr, x.query)), jstr(&x.detail)));
+		col.violation(&x.kind, &x.expr, &format!("pipe {} ;; {}", x.expr, x.query), &format!("{} | query {}", x.detail, x.query));
 	}
-	v.finish();
-	let mut s = Out::create(&ctx.out, "stats.json")?;
 	let nqueries: u64 = stats.iter().filter(|(k, _)| k.starts_with("q:")).map(|(_, v)| *v).sum();
-	s.line(&format!("{{\"lines\":{lines},\"spec_cases\":{nqueries},\"spec_violations\":{},\"groups\":{{{}}}}}", specv.len(),
-		stats.iter().map(|(k, v)| format!("{}:{}", jstr(k), v)).collect::<Vec<_>>().join(",")));
-	s.finish();
+	col.spec_cases += nqueries;
+	for (k, v) in stats { col.bump(&k, v); }
 	let _ = parse_expr;
 	Ok(())
 }
